@@ -57,7 +57,11 @@ export VERIF_SEED="${VERIF_SEED:-1}"
 
 MON="$BIN/mon$suffix"
 FLAGS=()
-if [ "$PROP" = "C19" ]; then MON="$BIN/mon-race$suffix"; FLAGS=(-race); fi
+if [ "$PROP" = "C19" ]; then
+  MON="$BIN/mon-race$suffix"; FLAGS=(-race)
+  # C19 also drives a long uninstrumented run (tens of millions of draws) through the plain build
+  if build "$BIN/mon$suffix"; then export VERIF_MON_FAST="$BIN/mon$suffix"; fi
+fi
 if ! build "$MON" "${FLAGS[@]}"; then
   echo "INCONCLUSIVE property=$PROP reason=harness build failed against $REPO"
   exit 2
